@@ -57,9 +57,9 @@ Check (C16_template_cr_refuted :
     eval_template (js_run ops) = Some (LF :: s "a" ++ [LF] ++ s "b") /\ just_run ops = s "a" ++ [CR] ++ s "b").
 Check (C16_template_split_dollar_refuted :
   exists ops, no_cr_ops ops = true /\ eval_template (js_run ops) = None /\ just_run ops = s "${").
-Check (C16_extend_schema_refuted :
+Check (C16_extend_schema_directives_only :
   just_run (print_tsdoc_ext [TSSchemaExt (mkSchemaExt pos0 [dir_a] [])])
-  = s "extend schema @a{" ++ [LF] ++ s "}" ++ [LF; LF]).
+  = s "extend schema @a" ++ [LF; LF]).
 Check (C16_extend_union_refuted :
   just_run (print_tsdoc_ext [TSTypeExt (TEUnion pos0 (mkId (s "U") pos0) [dir_a] [])])
   = s "extend union U @a =" ++ [LF; LF]).
@@ -84,5 +84,5 @@ Print Assumptions C16_print_string_lex_full_refuted.
 Print Assumptions C16_block_reindent_refuted.
 Print Assumptions C16_template_cr_refuted.
 Print Assumptions C16_template_split_dollar_refuted.
-Print Assumptions C16_extend_schema_refuted.
+Print Assumptions C16_extend_schema_directives_only.
 Print Assumptions C16_extend_union_refuted.
